@@ -1,5 +1,6 @@
 import HbsModel.Registry
 import HbsModel.Lemmas.RM
+import HbsModel.Props.C08
 /-
   C09  A partial renders as its template applied to the designated context.
 -/
@@ -96,7 +97,7 @@ theorem partial_scope_is_fresh (reg : Registry) (root : Json) (fuel : Nat) (d : 
                            indentString := rc.indentString, pbBinding := rc.pbBinding } out1
        | r => r) := by
   have hb : (d.name == PARTIAL_BLOCK) = false := beq_eq_false_iff_ne.mpr hnb
-  simp [expandPartial, hno, RM.bnd_apply, hcur, hb, h1, hp, hev, RM.withCleanup]
+  simp [expandPartial, hno, RM.bnd_apply, hcur, hb, h1, hp, hev, RM.partialScope, RM.bracket_apply]
   split <;> simp_all
 
 /-- `{{> @partial-block}}` renders the block body of the enclosing inclusion; a second use finds the
@@ -120,5 +121,23 @@ theorem partial_block_binding_restored (reg : Registry) (root : Json) (fuel : Na
     | err e o => rw [hr] at hok; cases hok
     | panic s => rw [hr] at hok; cases hok
     | fuel => rw [hr] at hok; cases hok
+
+end Hbs.C09
+
+/-! ### for the whole renderer (instance of the frame theorem of C08) -/
+namespace Hbs.C09
+open Hbs RM
+
+/-- **ANY partial inclusion** – registered, inline, dev-mode, `@partial-block`, with a context argument,
+    hash arguments, a block body, an indentation, and whatever its template does – hands back the
+    caller's scope stack, indentation and `@partial-block` binding exactly as they were, and leaves
+    escaping on if it was on: nothing of the partial's scope (the merged context, its hash arguments,
+    its own block parameters and @-variables) is visible afterwards. -/
+theorem any_partial_restores_the_caller (reg : Registry) (root : Json) (fuel : Nat) (d : DecoI)
+    (rc rc' : RC) (out out' : Out) (h : expandPartial reg root fuel d rc out = .ok () rc' out') :
+    rc'.blocks = rc.blocks ∧ rc'.indentString = rc.indentString ∧ rc'.pbStack = rc.pbStack ∧
+    rc'.pbBinding = rc.pbBinding ∧ (rc.disableEscape = false → rc'.disableEscape = false) := by
+  have := C08.partial_restores_frame reg root fuel d rc rc' out out' h
+  exact ⟨this.blocks, this.indent, this.pbStack, this.pbBinding, this.esc⟩
 
 end Hbs.C09
